@@ -73,6 +73,7 @@ MENU = [
     ("for-negint", "X=-A:FOR I=INT(X) TO 0:{m}:NEXT", None, set()),
     ("for-var-read-before", "Z=K*2:FOR K=1 TO 2:{m}:NEXT K:Z=Z+K", None, set()),
     ("for-var-read-before2", "Z=K+J:FOR K=1 TO 2:FOR J=1 TO 2:{m}:NEXT J,K:Z=Z+K", None, set()),
+    ("scalar-array-same-name", "DIM K(3):K(1)=A:K=K+1:IF K=1 THEN {m}", None, set()),
     ("end", "END", None, set()),
     ("stop", "STOP", None, set()),
     ("if-end", "IF A=1 THEN END", None, set()),
